@@ -89,3 +89,11 @@ func MustUnHex(h string) string {
 	}
 	return s
 }
+
+func (r *Rand) Pick2(a, b int) int {
+	if r.Bool() {
+		return a
+	}
+	return b
+}
+func (r *Rand) Pick2i(a, b int) int { return r.Pick2(a, b) }
